@@ -1325,7 +1325,9 @@ impl CodeGenerator {
             IRNode::Join { .. } => true,
             IRNode::Distinct { input } => Self::contains_join(input),
             IRNode::Union { inputs } => inputs.iter().any(Self::contains_join),
-            IRNode::Aggregate { input, .. } => Self::contains_join(input),
+            // An aggregate needs every row of a group in one place; hash-partitioning the
+            // input would aggregate each partition separately (per-partition counts/sums).
+            IRNode::Aggregate { .. } => true,
             IRNode::Antijoin { .. } => true, // Antijoin is also a join-like operation
             IRNode::Compute { input, .. } => Self::contains_join(input),
             IRNode::FlatMap { input, .. } => Self::contains_join(input),
